@@ -4,6 +4,7 @@
 package pp
 
 import (
+	"bytes"
 	"fmt"
 	"math"
 	"strings"
@@ -17,6 +18,16 @@ const (
 		"                                                                " +
 		"                                                                " // 256 wide should be enough
 )
+
+// appendIndent appends the first n bytes of indent, a newline and n-1
+// spaces, also when n is more than indent holds.
+func appendIndent(b []byte, n int) []byte {
+	if n <= len(indent) {
+		return append(b, indent[:n]...)
+	}
+	b = append(b, indent...)
+	return append(b, bytes.Repeat([]byte{' '}, n-len(indent))...)
+}
 
 // This interface is needed since importing flavors causes an undetectable
 // import loop.
